@@ -944,7 +944,10 @@ impl<T: Transport + 'static> SyncEngine<T> {
                             // An entry of another kind that is in the way (a symbolic link left where
                             // the source has a file or a directory now) is replaced: the path was there
                             // before the run, so the change is reported as an update, not a creation
-                            let replaces_entry = std::fs::symlink_metadata(&task.dest_path).is_ok();
+                            // (only a link counts: with several workers a directory may already have
+                            // been made by the task of one of its entries -- that is still its creation)
+                            let replaces_entry = std::fs::symlink_metadata(&task.dest_path)
+                                .is_ok_and(|m| m.file_type().is_symlink());
                             match transferrer.create(source, &task.dest_path).await {
                                 // A symlink entry that the link mode left out (skip mode; follow mode
                                 // with a target that does not resolve or is a directory) put nothing in
